@@ -23,9 +23,10 @@ const EpochLo = 864403200
 const EpochHi = 1864403200
 
 type Store struct {
-	S   *storage.Storage
-	Dir string
-	Cfg *config.Server
+	S    *storage.Storage
+	Dir  string
+	Cfg  *config.Server
+	hung bool
 }
 
 func init() {
@@ -123,7 +124,24 @@ type OpResult struct {
 	Get *GetDump
 }
 
-func (st *Store) Apply(op Op) (res OpResult) {
+// Apply runs one step under a watchdog: an operation that does not return within a minute is reported like a
+// panic (the harnesses turn that into a crash verdict) and the store is not used again.
+func (st *Store) Apply(op Op) OpResult {
+	if st.hung {
+		return OpResult{Err: "PANIC: skipped, an earlier operation hung"}
+	}
+	ch := make(chan OpResult, 1)
+	go func() { ch <- st.apply(op) }()
+	select {
+	case r := <-ch:
+		return r
+	case <-time.After(60 * time.Second):
+		st.hung = true
+		return OpResult{Err: "PANIC: operation " + op.Kind + " did not return within 60 s (hang)"}
+	}
+}
+
+func (st *Store) apply(op Op) (res OpResult) {
 	defer func() {
 		if r := recover(); r != nil {
 			res.Err = fmt.Sprintf("PANIC: %v", r)
